@@ -38,6 +38,7 @@ ASSUMPTIONS = ["fractions.Fraction stands in as SymFrac: value term + fresh inte
                "by the solver (C-level %g, locale.atof, re, str(float)); the auxiliary grid only samples them"]
 CHUNK = 6
 MAX_PATHS = 400
+ITEM_BUDGET_S = 20  # (a configuration of this harness takes well under a second)
 LIM = 10**9
 
 
@@ -69,6 +70,10 @@ def items(tier, seed):
     for p, q in ((1, 2), (3, 4), (0, 1), (5, 8)):
         for u, du in (("in", "m"), ("m", "m"), ("degC", "K")):
             out.append({"k": "fs_valid", "u": u, "du": du, "p": p, "q": q})
+    # two FractionScalars in ONE unit (no conversion): all four order operators against Scalars holding float(value), equal amounts split differently included
+    for (p, q), (p2, q2) in (((1, 2), (0, 1)), ((3, 4), (0, 1)), ((1, 4), (5, 4)), ((1, 2), (1, 2)), ((0, 1), (0, 1)), ((7, 8), (3, 8)), ((1, 2), (2, 4))):
+        for u in ("m", "in"):
+            out.append({"k": "fs_cmp", "u": u, "p": p, "q": q, "p2": p2, "q2": q2})
     out.append({"k": "aux"})
     out.append({"k": "fv", "op": "float", "canary": True})
     rng.shuffle(out)
@@ -147,6 +152,11 @@ def run(cfg, V):
         via_db = UnitDatabase.GetSingleton().Convert(cfg["qt"], cfg["u"], cfg["v"], FractionValue(V["n"], (cfg["p"], cfg["q"])))
         return {"r": g.__float__(), "number": g.GetNumber(), "unit_kept": fs.GetUnit() == get_db("default").GetInfo(cfg["qt"], cfg["u"]).unit, "via_db": via_db.__float__(),
                 "src_untouched": float(fs.GetValue().GetFraction()) == cfg["p"] / cfg["q"]}
+    if k == "fs_cmp":
+        a = FractionScalar(FractionValue(V["n"], (cfg["p"], cfg["q"])), cfg["u"])
+        b = FractionScalar(FractionValue(V["lo"], (cfg["p2"], cfg["q2"])), cfg["u"])
+        sa, sb = Scalar(V["n"] + cfg["p"] / cfg["q"], cfg["u"]), Scalar(V["lo"] + cfg["p2"] / cfg["q2"], cfg["u"])
+        return {"fs": (a < b, a <= b, a > b, a >= b, b < a, b <= a, b > a, b >= a), "s": (sa < sb, sa <= sb, sa > sb, sa >= sb, sb < sa, sb <= sa, sb > sa, sb >= sa)}
     if k == "fs_valid":
         db = fresh_posc_db()
         with pushed(db):
@@ -182,6 +192,14 @@ def run(cfg, V):
                 bad.append(("CreateFromFloat", v, str(fv)))
         except Exception as e:  # noqa
             bad.append(("CreateFromFloat", v, type(e).__name__))
+    # number parts next to an integer or next to zero keep their amount under float() and under the order operators
+    for n_ in (5e-9, 3.000000004, -2e-9, 1e-12, 6.9999999995, 2e-8):
+        for (p_, q_) in ((0, 1), (1, 2), (3, 4)):
+            fv_ = FractionValue(n_, (p_, q_))
+            if abs(float(fv_) - (n_ + p_ / q_)) > 1e-15 * max(1.0, abs(n_ + p_ / q_)):
+                bad.append(("float-near-integer", n_, p_, q_, float(fv_)))
+    if not (FractionValue(5e-9) > FractionValue(3e-9)) or FractionValue(5e-9) == FractionValue(3e-9) or not (FractionScalar(5e-9, "m") > FractionScalar(3e-9, "m")):
+        bad.append(("tiny-amounts-compare-equal",))
     # integer powers of a Fraction against exact rational arithmetic (negative bases and negative exponents included)
     import fractions as _fr
 
@@ -279,6 +297,8 @@ def props(cfg, T, obs):
                 ("the registered FractionValue conversion of UnitDatabase.Convert agrees", zabs(term(obs["via_db"]) - want) <= tol),
                 ("the number part alone is converted exactly", approx(obs["number"], oracle_convert(db, cfg["qt"], cfg["u"], cfg["v"], n))),
                 ("the source keeps its unit and its fraction", bool(obs["unit_kept"]) and bool(obs["src_untouched"]))]
+    if k == "fs_cmp":
+        return [("two FractionScalars of one unit compare (<, <=, >, >=, both orders) exactly like Scalars holding float(value)", obs["fs"] == obs["s"])]
     if k == "fs_valid":
         return [("a FractionScalar validates exactly like a Scalar holding float(value)", bool(obs["fs_valid"]) == bool(obs["s_valid"]))]
     return [("auxiliary concrete grid: format->parse, CreateFromFloat, float operands and integer powers of Fraction, default-constructed values preserve the amount (not solver-decided)", obs["aux_bad"] == [])]
